@@ -111,6 +111,12 @@ def run(tier, seed):
     for c, meta, rows in tabs:
         for r in rows:
             hmc = rnd.choice([0, 0, rnd.randint(1, 60), rnd.randint(60, 99), rnd.randint(85, 99)])
+            v = r["v"]
+            if v not in (0, 99999) and rnd.random() < 0.45:
+                # the 50-move boundary of this very position: the mate completes exactly on / one before / one after ply 100
+                n = (32000 - abs(v)) // 2
+                edge = (101 - 2 * n) if v > 0 else (100 - 2 * n)
+                hmc = min(99, max(0, edge + rnd.choice([0, 0, -1, 1])))
             jobs.append((c, meta, r, hmc, rnd.choice(sessions.NETS), rnd.choice([1, 1, 2, 4]), rnd.choice([8, 16, 64])))
     results = vlib.pmap(lambda j: search(bdir, j[2], j[3], j[4], j[5], j[6]), jobs, workers=10)
     files = {}
